@@ -5,4 +5,5 @@ INVARIANT OneRowPerEntry
 INVARIANT RowsNumbered
 INVARIANT ReadBackIsPrefix
 INVARIANT RoundTrip
+INVARIANT NakamuraOrder
 CHECK_DEADLOCK FALSE
